@@ -394,6 +394,16 @@ class EventDispatcher(object):
             #self.message_count += 1
 
             message_id = message.message_id
+            if message_id is None:
+                """
+                The message_id is the key of unacknowledged_messages and the
+                ID of the State (hence the correlation ID of Task requests).
+                Events published by clients other than this engine or its
+                REST API (e.g. a start event sent straight to the queue) are
+                not obliged to set the AMQP message-id property, so give
+                those a unique ID too rather than letting them share None.
+                """
+                message_id = message.message_id = str(uuid.uuid4())
             self.unacknowledged_messages[message_id] = message
             self.state_engine.notify(item, message_id, message.redelivered)
             self.state_engine.task_dispatcher.schedule_orphaned_response_handler()
